@@ -267,6 +267,7 @@ func c03(r *lp.Run) {
 	if discarded*10 > nSpecs {
 		r.Fail(lp.PropFail{Property: "C03", What: "more than 10% of the random schema specs are refused by the generator", Input: discarded, Observed: fmt.Sprint(discarded), Expected: "rare refusals"})
 	}
+	handPkg := c03HandAdd(r, mod)
 	codecPkgs := c03CodecAdd(r, r.Rng.Fork(303), mod)
 	bin, err := mod.Build()
 	if err != nil {
@@ -283,6 +284,7 @@ func c03(r *lp.Run) {
 			c03Op(r, drv, b, op)
 		}
 	}
+	c03Hand(r, drv, handPkg)
 	c03Codec(r, r.Rng.Fork(304), drv, codecPkgs)
 }
 
